@@ -21,8 +21,9 @@ theorem G2_of_G (s : App) (c : CSet) (g : G s c) : G2 s c := by
         | cons x xs => exact ⟨x, by simp, hact x (by rw [hvs]; simp)⟩)
       pend := ⟨m.pend.ops, m.pend.keys, m.pend.fresh⟩
       last := (by
-        intro v hv
+        intro v hv _
         rw [m.last v.op v (mem_vals_getVal s m.sorted v hv), lastOf_active v (hact v hv)])
+      lastJ := (by intro v hv hj; rw [(hact v hv).2.1] at hj; cases hj)
       lastOnly := m.lastOnly, lastSorted := m.lastSorted, idxEx := m.idxEx, idxNodup := m.idxNodup
       idx := (by
         intro v hv
@@ -35,7 +36,8 @@ theorem G2_of_G (s : App) (c : CSet) (g : G s c) : G2 s c := by
             rw [← hw] at hwm
             exact ⟨hact v hv, m.occ2 v hv hin, hwm⟩)
           g := (fun hg => absurd hg (active_not_gone v (hact v hv)))
-          u := (fun hu => absurd hu (active_not_unb v (hact v hv))) })
+          u := (fun hu => absurd hu (active_not_unb v (hact v hv)))
+          j := (fun hj => by rw [(hact v hv).2.1] at hj; cases hj) })
       unbond := m.unbond, infos := m.infos, cons := m.cons, updSorted := m.updSorted
       updEx := (by
         intro op hop
@@ -47,13 +49,17 @@ theorem G2_of_G (s : App) (c : CSet) (g : G s c) : G2 s c := by
     cm := {
       cur := (fun v hv _ hnu => m.cometCur v hv hnu)
       gone := (fun v hv hg => absurd hg (active_not_gone v (hact v hv)))
+      jb := (fun v hv hj _ => by rw [(hact v hv).2.1] at hj; cases hj)
       known := (by
         intro k p hkp
         obtain ⟨v, hv, hk⟩ := m.cometKnown k p hkp
         exact ⟨v, hv, hk, (hact v hv).1⟩)
       cSorted := m.cSorted, cNonneg := m.cNonneg }
     allCur := (fun v hv _ => g.allCur v hv)
-    noGone := (fun v hv hg => absurd hg (active_not_gone v (hact v hv)))
+    noLeaving := (fun v hv hl => by
+      rcases hl with hg | ⟨hj, _⟩
+      · exact active_not_gone v (hact v hv) hg
+      · exact active_not_jl v (hact v hv) hj)
     totalOk := g.totalOk }
 
 /-- InitChain of every well-formed genesis ends in `G2` -/
@@ -67,18 +73,19 @@ theorem genesis_G2 (g : Genesis) (hw : g.wf = true) :
     owns no index entry), a single RemoveValidator (which, if it succeeds, addresses a live validator not re-weighted in
     this block whose index entry sits at its current power), a CreateValidator, a RemovePending or an UpdateStakingParams -/
 def QuietTx2 (s : App) (incs : List (Signer × Nat)) (tx : Tx) : Prop :=
-  (runTx genEnv s incs tx).2.1 = s ∨
+  ((runTx genEnv s incs tx).2.1 = s ∧ (∀ op, tx.msgs ≠ [.remove (some op)]) ∧
+    (tx.signer = .admin → ∀ op p u, tx.msgs ≠ [.setPower (some op) p u])) ∨
   (∃ op p u, tx.signer = .admin ∧ tx.msgs = [.setPower (some op) p u] ∧
     ((runTx genEnv s incs tx).1 = .ok → s.pendingFind op = none →
-      (∀ v, s.getVal op = some v → powerOf v.tokens > 0) ∧ op ∉ s.updated ∧ (p / PR, op) ∉ s.index)) ∨
+      (∀ v, s.getVal op = some v → powerOf v.tokens > 0 ∧ v.jailed = false) ∧ op ∉ s.updated ∧ (p / PR, op) ∉ s.index)) ∨
   (∃ op, tx.msgs = [.remove (some op)] ∧
     ((runTx genEnv s incs tx).1 = .ok →
-      ∃ v, s.getVal op = some v ∧ powerOf v.tokens > 0 ∧ op ∉ s.updated ∧ (powerOf v.tokens, op) ∈ s.index)) ∨
+      ∃ v, s.getVal op = some v ∧ powerOf v.tokens > 0 ∧ v.jailed = false ∧ op ∉ s.updated ∧ (powerOf v.tokens, op) ∈ s.index)) ∨
   (∃ a, tx.msgs = [.create a]) ∨ (∃ t, tx.msgs = [.rmPending t]) ∨ (∃ pa, tx.msgs = [.params pa])
 
 theorem M2_setPower (s s' : App) (c : CSet) (op p : Nat) (u : Bool) (m : M2 s c)
     (h : setPowerMsg genLimitFacts s .admin (some op) p u = .ok s')
-    (hq : s.pendingFind op = none → (∀ v, s.getVal op = some v → powerOf v.tokens > 0) ∧ op ∉ s.updated ∧ (p / PR, op) ∉ s.index) :
+    (hq : s.pendingFind op = none → (∀ v, s.getVal op = some v → powerOf v.tokens > 0 ∧ v.jailed = false) ∧ op ∉ s.updated ∧ (p / PR, op) ∉ s.index) :
     M2 s' c := by
   cases hf : s.pendingFind op with
   | none => exact M2_setPower_existing s s' c op p u m h hf (hq hf).1 (hq hf).2.1 (hq hf).2.2
@@ -96,7 +103,7 @@ theorem removeMsg_core (s s' : App) (sg : Signer) (op : Nat) (h : s.removeMsg sg
 
 theorem runTx_M2 (s : App) (c : CSet) (incs : List (Signer × Nat)) (tx : Tx) (m : M2 s c) (q : QuietTx2 s incs tx) :
     M2 (runTx genEnv s incs tx).2.1 c := by
-  rcases q with hsame | ⟨op, p, u, hsg, hmsgs, hq⟩ | ⟨op, hmsgs, hq⟩ | ⟨a, hmsgs⟩ | ⟨tg, hmsgs⟩ | ⟨pa, hmsgs⟩
+  rcases q with ⟨hsame, _, _⟩ | ⟨op, p, u, hsg, hmsgs, hq⟩ | ⟨op, hmsgs, hq⟩ | ⟨a, hmsgs⟩ | ⟨tg, hmsgs⟩ | ⟨pa, hmsgs⟩
   · rw [hsame]; exact m
   · unfold runTx at hq ⊢
     split
@@ -130,8 +137,8 @@ theorem runTx_M2 (s : App) (c : CSet) (incs : List (Signer × Nat)) (tx : Tx) (m
         | error e => simp only [liftE]; exact m
         | ok s' =>
           simp only [hr, liftE] at hq ⊢
-          obtain ⟨v, hv, hpos, hd3, hidx⟩ := hq trivial
-          exact M2_remove s s' c op v m (removeMsg_core s s' tx.signer op hr) hv hpos hd3 hidx
+          obtain ⟨v, hv, hpos, hnj, hd3, hidx⟩ := hq trivial
+          exact M2_remove s s' c op v m (removeMsg_core s s' tx.signer op hr) hv hpos hnj hd3 hidx
   · unfold runTx
     split
     · exact m
@@ -182,27 +189,46 @@ theorem runTxs_M2 (c : CSet) : ∀ (txs : List Tx) (s : App) (incs : List (Signe
 
 /-- a block of the wider quiet class -/
 structure QuietBlock2 (s : App) (c : CSet) (b : Block) : Prop where
-  votes : VotesOk { s with height := s.height + 1, time := s.time + b.dt } b.votes
-  noEvid : b.evid = []
+  /-- x/slashing's and x/evidence's BeginBlockers: whoever they punish was a live validator not re-weighted in the last
+      block, and they leave the state in the shape `PunShape` (nobody punished is the special case) -/
+  begin_ : ∃ s1, punishState s b = .ok s1 ∧ PunShape { s with height := s.height + 1, time := s.time + b.dt } s1
   noGov : b.gov = []
   txs : ∀ s2, beginState genEnv s b = .ok s2 → QuietTxs2 b.txs s2 []
   fits : ∀ s2, beginState genEnv s b = .ok s2 → Fits2 (runTxs genEnv b.txs s2 [] []).2 c
 
 /-- **one quiet block takes `G2` to `G2`**: it does not halt, CometBFT accepts its updates, the sets agree -/
+theorem beginState_of_punish (s s1 : App) (b : Block) (h : punishState s b = .ok s1) :
+    beginState genEnv s b = poaBegin genEnv.lim s1 := by
+  unfold punishState at h
+  unfold beginState
+  cases hs : slashingBegin b.votes { s with height := s.height + 1, time := s.time + b.dt } with
+  | error e => rw [hs] at h; cases h
+  | ok sa =>
+    rw [hs] at h
+    simp only at h ⊢
+    rw [h]
+
+/-- the state after the three BeginBlockers of a quiet block, with `M2` -/
+theorem begin_M2 (s : App) (c : CSet) (b : Block) (g : G2 s c) (q : QuietBlock2 s c b) :
+    ∃ s2, beginState genEnv s b = .ok s2 ∧ M2 s2 c ∧
+      ∀ v ∈ s.vals, ∃ w, s2.getVal v.op = some w ∧ w.key = v.key ∧ (w = v ∨ (Active v ∧ Jl w ∧ w.status = .bonded)) := by
+  obtain ⟨s1, hp, sh⟩ := q.begin_
+  have g0 : B2 { s with height := s.height + 1, time := s.time + b.dt } c :=
+    B2_frame s c (B2_of_G2 s c g) s.infos s.bitmap (s.height + 1) (s.time + b.dt) g.st.infos
+  have g1 : B2 s1 c := punish_B2 _ s1 c g0 g.noLeaving sh
+  obtain ⟨s2, hpb, g2, _, hvals2, _, _⟩ := poaBegin_G2 genEnv.lim s1 c g1
+  refine ⟨s2, by rw [beginState_of_punish s s1 b hp]; exact hpb, g2.toM2, ?_⟩
+  intro v hv
+  obtain ⟨w, hw, hk, hcase⟩ := sh.recs v hv
+  refine ⟨w, by rw [getVal_congr s2 s1 hvals2]; exact hw, hk, ?_⟩
+  rcases hcase with e | ⟨ha, _, h1, h2, h3⟩
+  · exact Or.inl e
+  · exact Or.inr ⟨ha, ⟨h1, h2⟩, h3⟩
+
 theorem block_G2 (s : App) (c : CSet) (b : Block) (g : G2 s c) (q : QuietBlock2 s c b) :
     ∃ o s' c', block genEnv s b = .ok (o, s') ∧ Comet.applyChangeSet c o.updates = .ok c' ∧ Agree c' s' ∧ G2 s' c' := by
-  obtain ⟨I', B', hsl, hI'⟩ := q.votes
-  have g1 : G2 { s with infos := I', bitmap := B', height := s.height + 1, time := s.time + b.dt } c :=
-    G2_frame s c g I' B' (s.height + 1) (s.time + b.dt) hI'
-  obtain ⟨s2, hpb, g2, _, _, _, _⟩ := poaBegin_G2 genEnv.lim _ c g1
-  have hbegin : beginState genEnv s b = .ok s2 := by
-    unfold beginState
-    have : slashingBegin b.votes { s with height := s.height + 1, time := s.time + b.dt } =
-        .ok { s with infos := I', bitmap := B', height := s.height + 1, time := s.time + b.dt } := hsl
-    rw [this]
-    simp only [q.noEvid, evidenceBegin]
-    exact hpb
-  have m3 := runTxs_M2 c b.txs s2 [] [] g2.toM2 (q.txs s2 hbegin)
+  obtain ⟨s2, hbegin, g2, _⟩ := begin_M2 s c b g q
+  have m3 := runTxs_M2 c b.txs s2 [] [] g2 (q.txs s2 hbegin)
   have f3 := q.fits s2 hbegin
   obtain ⟨ups, s4, c', he, hc, hag, g4, _⟩ := endBlock_G2 _ c m3 f3
   refine ⟨⟨(runTxs genEnv b.txs s2 [] []).1, ups⟩, s4, c', ?_, hc, hag, g4⟩
@@ -252,17 +278,13 @@ theorem quiet_history2 (g : Genesis) (hw : g.wf = true) (bs : List Block) (hq : 
 theorem fits2_of_B (s : App) (c : CSet) (h : fits2B s c = true) : Fits2 s c := by
   unfold fits2B at h
   simp only [Bool.and_eq_true, decide_eq_true_eq] at h
-  exact ⟨h.1.1.1.1, h.1.1.1.2, h.1.1.2, h.1.2, h.2⟩
+  exact ⟨h.1.1.1.1.1.1, h.1.1.1.1.1.2, h.1.1.1.1.2, ⟨h.1.1.1.2, h.1.1.2⟩, h.1.2, h.2⟩
 
 theorem quietTx2_of_B (s : App) (incs : List (Signer × Nat)) (tx : Tx) (h : quietTx2B s incs tx = true) : QuietTx2 s incs tx := by
   unfold quietTx2B at h
-  simp only [Bool.or_eq_true, decide_eq_true_eq] at h
-  rcases h with h | h
-  · exact Or.inl h
-  right
   split at h
   · rename_i op p u hs hm
-    left
+    right; left
     refine ⟨op, p, u, hs, hm, ?_⟩
     intro hok hnone
     simp only [hok, bne_self_eq_false, hnone, Option.isSome_none, Bool.false_or, Bool.and_eq_true, Bool.not_eq_true'] at h
@@ -270,11 +292,12 @@ theorem quietTx2_of_B (s : App) (incs : List (Signer × Nat)) (tx : Tx) (h : qui
     · intro v hv
       have := h.1.1
       rw [hv] at this
-      simpa using this
+      simp only [Bool.and_eq_true, decide_eq_true_eq, Bool.not_eq_true'] at this
+      exact this
     · intro hm2; have := h.1.2; simp [hm2] at this
     · intro hm2; have := h.2; simp [hm2] at this
   · rename_i op hm
-    right; left
+    right; right; left
     refine ⟨op, hm, ?_⟩
     intro hok
     simp only [hok, bne_self_eq_false, Bool.false_or] at h
@@ -283,16 +306,18 @@ theorem quietTx2_of_B (s : App) (incs : List (Signer × Nat)) (tx : Tx) (h : qui
     | some v =>
       rw [hv] at h
       simp only [Bool.and_eq_true, decide_eq_true_eq, Bool.not_eq_true'] at h
-      refine ⟨v, rfl, h.1.1, ?_, ?_⟩
+      refine ⟨v, rfl, h.1.1.1, h.1.1.2, ?_, ?_⟩
       · intro hm2; have := h.1.2; simp [hm2] at this
       · have := h.2; simpa using this
   · rename_i a hm
-    right; right; left; exact ⟨a, hm⟩
+    right; right; right; left; exact ⟨a, hm⟩
   · rename_i tg hm
-    right; right; right; left; exact ⟨tg, hm⟩
+    right; right; right; right; left; exact ⟨tg, hm⟩
   · rename_i pa hm
-    right; right; right; right; exact ⟨pa, hm⟩
-  · cases h
+    right; right; right; right; right; exact ⟨pa, hm⟩
+  · rename_i hrm _ _ _ hsp
+    left
+    exact ⟨by simpa using h, fun op hm => hrm op hm, fun hs op p u hm => hsp op p u hs hm⟩
 
 theorem quietTxs2_of_B : ∀ (txs : List Tx) (s : App) (incs : List (Signer × Nat)), quietTxs2B txs s incs = true → QuietTxs2 txs s incs
   | [], _, _, _ => trivial
@@ -300,19 +325,71 @@ theorem quietTxs2_of_B : ∀ (txs : List Tx) (s : App) (incs : List (Signer × N
     simp only [quietTxs2B, Bool.and_eq_true] at h
     exact ⟨quietTx2_of_B s incs tx h.1, quietTxs2_of_B rest _ _ h.2⟩
 
+theorem active_of_B (v : Val) (h : isActiveB v = true) : Active v := by
+  unfold isActiveB at h
+  simp only [Bool.and_eq_true, beq_iff_eq, Bool.not_eq_true', decide_eq_true_eq] at h
+  exact ⟨h.1.1.1, h.1.1.2, h.1.2, h.2⟩
+
+theorem punShape_of_B (s0 s1 : App) (h : punShapeB s0 s1 = true) : PunShape s0 s1 := by
+  unfold punShapeB at h
+  simp only [Bool.and_eq_true, decide_eq_true_eq] at h
+  obtain ⟨⟨⟨⟨⟨⟨⟨⟨⟨⟨⟨⟨⟨⟨⟨h1, h2⟩, h3⟩, h4⟩, h5⟩, h6⟩, h7⟩, h8⟩, h9⟩, h10⟩, h11⟩, h12⟩, h13⟩, h14⟩, h15⟩, h16⟩ := h
+  refine {
+    ops := h1
+    recs := ?_
+    stays := ?_
+    last := h4, ubq := h5, cons := h6, pending := h7, updated := h8, unbond := h9, lastTotal := h10
+    idxSub := ?_
+    idxNodup := h12
+    idxOcc := ?_
+    idxKeep := ?_
+    idxJ := ?_
+    infos := ?_ }
+  · intro v hv
+    have := List.all_eq_true.mp h2 v hv
+    cases hw : s1.getVal v.op with
+    | none => rw [hw] at this; cases this
+    | some w =>
+      rw [hw] at this
+      simp only [Bool.and_eq_true, decide_eq_true_eq, Bool.or_eq_true, Bool.not_eq_true', beq_iff_eq] at this
+      refine ⟨w, rfl, this.1, ?_⟩
+      rcases this.2 with e | e
+      · exact Or.inl e
+      · refine Or.inr ⟨active_of_B v e.1.1.1.1, ?_, e.1.1.2, e.1.2, e.2⟩
+        intro hm
+        have := e.1.1.1.2
+        simp [hm] at this
+  · obtain ⟨v, hv, hvc⟩ := List.any_eq_true.mp h3
+    simp only [Bool.and_eq_true, decide_eq_true_eq] at hvc
+    exact ⟨v, hv, active_of_B v hvc.1, hvc.2⟩
+  · intro e he
+    have := List.all_eq_true.mp h11 e he
+    simpa using this
+  · intro v hv hs
+    have := List.all_eq_true.mp h13 v hv
+    simp only [hs, ↓reduceIte, decide_eq_true_eq] at this
+    exact this
+  · intro e he hs
+    have := List.all_eq_true.mp h14 e he
+    simp only [hs, ↓reduceIte] at this
+    simpa using this
+  · intro w hw hj
+    have := List.all_eq_true.mp h15 w hw
+    simp only [hj, Bool.not_true, Bool.false_or, decide_eq_true_eq] at this
+    exact this
+  · intro w hw
+    exact List.all_eq_true.mp h16 w hw
+
 theorem quietBlock2_of_B (s : App) (c : CSet) (b : Block) (h : quietBlock2B s c b = true) : QuietBlock2 s c b := by
   unfold quietBlock2B at h
   simp only [Bool.and_eq_true] at h
-  obtain ⟨⟨⟨hv, he⟩, hgv⟩, hm⟩ := h
-  refine ⟨?_, by simpa using he, by simpa using hgv, ?_, ?_⟩
-  · cases hsl : slashingBegin b.votes { s with height := s.height + 1, time := s.time + b.dt } with
-    | error e => rw [hsl] at hv; cases hv
+  obtain ⟨⟨hv, hgv⟩, hm⟩ := h
+  refine ⟨?_, by simpa using hgv, ?_, ?_⟩
+  · cases hp : punishState s b with
+    | error e => rw [hp] at hv; cases hv
     | ok s1 =>
-      rw [hsl] at hv
-      simp only [Bool.and_eq_true, decide_eq_true_eq] at hv
-      refine ⟨s1.infos, s1.bitmap, ?_, ?_⟩
-      · rw [hsl]; exact congrArg Except.ok hv.1
-      · intro v hvm; exact List.all_eq_true.mp hv.2 v hvm
+      rw [hp] at hv
+      exact ⟨s1, rfl, punShape_of_B _ _ hv⟩
   · intro s2 hs2
     rw [hs2] at hm
     simp only [Bool.and_eq_true] at hm
